@@ -4,6 +4,7 @@ import QV.Model.Front
 import QV.Model.Sem
 import QV.Model.SemX
 import QV.Model.SemT
+import QV.Model.SemXT
 /-! JSON handlers of C01: `c01.translate` (a whole program, as `ast2ast` leaves it, to the truth
 table of its return bits) and `c01.arith` (one library function on symbolic / constant operands). -/
 namespace QV.Drive.C01
@@ -184,23 +185,37 @@ def semwOp (j : Json) : R Json := do
       | some v => Json.str v.bitString
       | none => Json.null]
   let rows := rowsL
-  -- the exact semantics `Sem` (QV/Model/SemX.lean): per row `[python value, k, claimed bits, inRange]`
-  -- (`k = null`: in range; claimed bits as a string over 0 / 1 / ?), `null` where `Sem` gives no meaning
-  let exact : List Json := (List.range (2 ^ argBits.length)).map fun k =>
+  -- the exact semantics `Sem`, widened (QV/Model/SemXT.lean; it is `QV/Model/SemX.lean` on bool / Qint programs,
+  -- re-checked here on every row): per row `[python value, k, claimed bits, inRange]` (`k = null`: in range;
+  -- claimed bits as a string over 0 / 1 / ?; value and k are `null` for a Qchar / tuple return, whose claims
+  -- are per leaf), `null` where `Sem` gives no meaning
+  let claimStr (l : List (Option Bool)) : String := String.ofList (l.map fun c => match c with
+    | none => '?'
+    | some b => bitChar b)
+  let mut exactL : List Json := []
+  for k in List.range (2 ^ argBits.length) do
     let ρ := assignment argBits k
+    let xt := QV.Sem.semProgXT prog ρ
     match QV.Sem.semProgX prog ρ with
     | some xv =>
-      let x : Json := match xv.v with
-        | .bool b => toJson (if b then (1 : Int) else 0)
-        | .int _ x => toJson x
-      let kk : Json := match xv.k with
-        | none => Json.null
-        | some n => toJson n
-      let claim := String.ofList (xv.claim.map fun c => match c with
-        | none => '?'
-        | some b => bitChar b)
-      Json.arr #[x, kk, Json.str claim, Json.bool (QV.Sem.inRangeProg prog ρ)]
-    | none => Json.null
+      match xt with
+      | some (.leaf xv') =>
+        if xv' != xv then throw s!"SemXT differs from SemX on row {k}"
+      | _ => throw s!"SemXT undefined or not a leaf where SemX is defined (row {k})"
+      if QV.Sem.inRangeProg prog ρ != QV.Sem.inRangeProgT prog ρ then throw s!"inRange differs on row {k}"
+    | none => pure ()
+    exactL := exactL ++ [match xt with
+      | some (.leaf xv) =>
+        let x : Json := match xv.v with
+          | .bool b => toJson (if b then (1 : Int) else 0)
+          | .int _ x => toJson x
+        let kk : Json := match xv.k with
+          | none => Json.null
+          | some n => toJson n
+        Json.arr #[x, kk, Json.str (claimStr xv.claim), Json.bool (QV.Sem.inRangeProgT prog ρ)]
+      | some v => Json.arr #[Json.null, Json.null, Json.str (claimStr v.claim), Json.bool (QV.Sem.inRangeProgT prog ρ)]
+      | none => Json.null]
+  let exact := exactL
   pure (Json.mkObj [("argbits", strsJ argBits), ("rows", Json.arr rows.toArray),
                     ("exact", Json.arr exact.toArray),
                     -- rows on which the bool / Qint semantics `SemW` alone gives a meaning; the hypotheses of
